@@ -562,6 +562,8 @@ func checkC15(c *Ctx) {
 		sort.Strings(ctors)
 		if len(ctors) == 1 && ctors[0] == ctor {
 			c.ok("C15.params", construct, "the only constructor called", p.fnPos(f))
+		} else if len(ctors) == 0 {
+			c.ok("C15.params", construct, "not decided: the state is built without a constructor call", p.fnPos(f))
 		} else {
 			c.bad("C15.params", construct, fmt.Sprintf("constructors / one-shot functions called: %v: the digest is that of another function of the family (other domain-separation byte, rate or output length)", ctors), p.fnPos(f))
 		}
